@@ -19,7 +19,7 @@ def exercise(ctx):
     rig = Rig(ctx)
     classes = values.classes_of(ctx.pool)
     n = int(ctx.inner.get("n", 6))
-    settings = {s["selector"]: s["auto_populated_fields"] for s in ctx.inner["settings"]}
+    settings = {s["selector"]: s.get("auto_populated_fields") for s in ctx.inner["settings"]}
     transports = ctx.options["transport"].split("+")
     kinds = (["sync", "async"] if "grpc" in transports else []) + (["rest"] if "rest" in transports else [])
     seen_ids = set()
